@@ -415,13 +415,36 @@ impl<'a> ReMatcher<'a> {
         self.state.borrow().anchored_match
     }
 
-    pub(crate) fn is_duplicate_zero_length_match(&self, repeat: &Repeat, position: usize) -> bool {
-        let mut state = self.state.borrow_mut();
+    // the text visible to back-references
+    pub(crate) fn backrefs(&self) -> Vec<Option<usize>> {
+        let state = self.state.borrow();
         let mut backrefs = state.start_backref.clone();
         backrefs.extend(state.end_backref.iter());
-        state
+        backrefs
+    }
+
+    pub(crate) fn is_duplicate_zero_length_match(
+        &self,
+        repeat: &Repeat,
+        position: usize,
+        backrefs: Vec<Option<usize>>,
+    ) -> bool {
+        self.state
+            .borrow_mut()
             .history
             .is_duplicate_zero_length_match(repeat, position, backrefs)
+    }
+
+    pub(crate) fn forget_zero_length_match(
+        &self,
+        repeat: &Repeat,
+        position: usize,
+        backrefs: Vec<Option<usize>>,
+    ) {
+        self.state
+            .borrow_mut()
+            .history
+            .forget_zero_length_match(repeat, position, backrefs)
     }
 
     // capture state related
